@@ -47,6 +47,17 @@ type outcome struct {
 	QueueReopens     int        `json:"queue_file_reopens"`
 	ValidationShards int        `json:"validation_shards_processed"`
 	MaxPending       int        `json:"max_rows_pending_at_a_start"`
+	// PendingSizes: boundary sizes ("0", "max") of blobs that had a queue row and were not at the
+	// destination when an incarnation after the first one started
+	PendingSizes []string `json:"boundary_sizes_pending_at_a_restart,omitempty"`
+	// PendingAtLastStart / LastIncFaults: rows pending when the last planned incarnation started,
+	// and the fault kinds delivered in it
+	PendingAtLastStart int      `json:"rows_pending_at_last_start"`
+	LastIncFaults      []string `json:"faults_delivered_in_last_incarnation,omitempty"`
+	// ThroughReplica / DirectFromCond: acknowledged uploads that reached the source as a backend of
+	// the replica / straight from the cond router (scenario.Via)
+	ThroughReplica int `json:"uploads_through_replica"`
+	DirectFromCond int `json:"uploads_direct_from_cond"`
 	Log              []evt      `json:"log,omitempty"`
 	EffQueue         []effEvent `json:"effective_queue_mutations,omitempty"`
 	sigKind          string
@@ -236,8 +247,25 @@ func execute(sc *scenario) *outcome {
 	for i := 0; i < len(incs); i++ {
 		is := incs[i]
 		final := i == len(incs)-1
-		if rows, err := w.queueRows(); err == nil && len(rows) > o.MaxPending {
-			o.MaxPending = len(rows)
+		if rows, err := w.queueRows(); err == nil {
+			if len(rows) > o.MaxPending {
+				o.MaxPending = len(rows)
+			}
+			if i == len(sc.Incs)-1 {
+				o.PendingAtLastStart = len(rows)
+			}
+			if i > 0 {
+				for k := range rows {
+					if b, ok := w.blobOf(k); ok && w.deliveredState(b) == "absent" {
+						switch len(b.Data) {
+						case 0:
+							o.PendingSizes = append(o.PendingSizes, "0")
+						case maxBlobSize:
+							o.PendingSizes = append(o.PendingSizes, "max")
+						}
+					}
+				}
+			}
 		}
 		inc := w.start(is)
 		o.Incarnations++
@@ -289,15 +317,38 @@ func execute(sc *scenario) *outcome {
 				}
 			}
 			w.rec.mu.Unlock()
-			retry = append(retry, w.client(inc, []sto.Blob{first}, false, acked, o)...)
-			select {
-			case <-atGate:
+			// (a gate at queue.Set holds the first upload itself, inside the receive hook: that upload
+			// runs beside this goroutine and is joined once the gate is open)
+			var held chan []sto.Blob
+			if g.Layer == "queue" && g.Op == "Set" {
+				held = make(chan []sto.Blob, 1)
+				acked1, o1 := map[string]bool{}, &outcome{}
+				go func() { held <- w.client(inc, []sto.Blob{first}, false, acked1, o1) }()
+				select {
+				case <-atGate:
+					retry = append(retry, w.client(inc, []sto.Blob{first}, false, acked, o)...)
+					o.Schedules = append(o.Schedules, "reupload-during-"+g.Layer+"."+g.Op)
+				case <-time.After(20 * time.Second):
+					o.Schedules = append(o.Schedules, "gate-never-reached")
+				}
+				inc.fault[g.Layer].ReleaseAll()
+				retry = append(retry, <-held...)
+				for k := range acked1 {
+					acked[k] = true
+				}
+				o.Acked += o1.Acked
+				o.FailedUploads += o1.FailedUploads
+			} else {
 				retry = append(retry, w.client(inc, []sto.Blob{first}, false, acked, o)...)
-				o.Schedules = append(o.Schedules, "reupload-during-"+g.Layer+"."+g.Op)
-			case <-time.After(20 * time.Second):
-				o.Schedules = append(o.Schedules, "gate-never-reached")
+				select {
+				case <-atGate:
+					retry = append(retry, w.client(inc, []sto.Blob{first}, false, acked, o)...)
+					o.Schedules = append(o.Schedules, "reupload-during-"+g.Layer+"."+g.Op)
+				case <-time.After(20 * time.Second):
+					o.Schedules = append(o.Schedules, "gate-never-reached")
+				}
+				inc.fault[g.Layer].ReleaseAll()
 			}
-			inc.fault[g.Layer].ReleaseAll()
 			w.rec.mu.Lock()
 			w.rec.onBegin = nil
 			w.rec.mu.Unlock()
@@ -378,6 +429,7 @@ func execute(sc *scenario) *outcome {
 		var wd bool
 		retry, wd = w.drive(inc, retry, acked, o)
 		o.Faults = append(o.Faults, inc.deliveredFaults()...)
+		o.LastIncFaults = uniq(inc.deliveredFaults())
 		if wd {
 			return o
 		}
@@ -400,6 +452,17 @@ func execute(sc *scenario) *outcome {
 		return o
 	}
 
+	if w.otherMem != nil {
+		for ref := range acked {
+			if b, ok := w.blobOf(ref); ok {
+				if _, at := w.otherMem.BlobContents(b.Ref); at {
+					o.ThroughReplica++
+				} else {
+					o.DirectFromCond++
+				}
+			}
+		}
+	}
 	flagged := w.monitor(o)
 	stale := w.finalState(last, acked, flagged, o, false)
 
